@@ -22,7 +22,7 @@ TIERS = {
     "quick": {"runs": 24000, "batch": 400, "timeout_s": 300, "max_ops": 10, "shrink_budget": 250},
     "thorough": {"runs": 600000, "batch": 2000, "timeout_s": 900, "max_ops": 14, "shrink_budget": 400},
 }
-RULE = ("Each run draws a nested structure (lists, dicts, attribute-bearing objects, nn.Module, tuples and "
+RULE = ("Each run draws a nested structure (lists, dicts, attribute-bearing objects incl. one whose class forbids assignment, nn.Module, containers referenced twice, tuples and "
         "non-tensor leaves; <=12 tensor slots; nesting <=4; shapes 0-d..2-d incl. zero-numel and the "
         "zero-tensor structure), an aliasing pattern of its slots over a pool of distinct tensors, and a "
         "history of <=10 (quick) operations on one Packer: list/flat getters, list/flat constructors with "
@@ -32,7 +32,8 @@ RULE = ("Each run draws a nested structure (lists, dicts, attribute-bearing obje
         "call that the model says must succeed; distinct = distinct (structure shape signature, alias "
         "partition, op-kind sequence) triples.")
 ASSUMPTIONS = [
-    "structures are trees of containers (a container object is not itself reachable twice); tensors may alias freely",
+    "structures are acyclic; a mutable container may be referenced twice (then, in the non-unique interface, the caller "
+    "supplies one tensor per physical place); tensors may alias freely",
     "all tensors float64; 'must succeed' is demanded only after the prerequisite getter the error message documents",
     "the flat-tensor constructor is given a tensor shaped like what get_param_tensor returned",
 ]
@@ -47,6 +48,17 @@ class Bag(object):
     """attribute-bearing object (has __dict__)"""
     def __init__(self):
         pass
+
+
+class FrozenBag(object):
+    """attribute-bearing object whose class intercepts assignment (like a frozen dataclass): it can only be
+    filled through its __dict__"""
+
+    def __setattr__(self, k, v):
+        raise AttributeError("FrozenBag is read-only")
+
+    def __delattr__(self, k):
+        raise AttributeError("FrozenBag is read-only")
 
 
 class Leaf(object):
@@ -64,16 +76,31 @@ class Leaf(object):
 
 
 # ----------------------------------------------------------------- generation
-def gen_structure(cs, pool, budget, depth, sig, root=False, in_tuple=False):
-    """returns a structure; budget = [remaining tensor slots]"""
+def gen_structure(cs, pool, budget, depth, sig, root=False, in_tuple=False, done=None):
+    """returns a structure; budget = [remaining tensor slots]; done = finished mutable containers of this
+    structure (candidates for being referenced a second time: the structure may be a DAG, never cyclic)"""
+    if done is None:
+        done = []
     if depth >= 4:
         kinds = [0, 5]
     else:
-        kinds = [0, 1, 2, 3, 4, 5, 6] if not root else [1, 2, 3, 0, 6]
+        kinds = [0, 1, 2, 3, 4, 5, 6, 7] if not root else [1, 2, 3, 0, 6, 7]
+        if done and not root and not in_tuple:
+            kinds = kinds + [8]
     if in_tuple:   # tensors inside tuples are generated too (kind 0); see "tuple mode" in run()
         kinds = [x for x in kinds if x != 6]
-    W = {0: 5, 1: 3, 2: 3, 3: 3, 4: 1, 5: 2, 6: 1}
+    W = {0: 5, 1: 3, 2: 3, 3: 3, 4: 1, 5: 2, 6: 1, 7: 1, 8: 1}
     k = kinds[cs.weighted([W[x] for x in kinds], "kind")]
+    if k == 8:      # the same container object a second time
+        j = cs.draw(len(done), "shared")
+        node, ntens = done[j]
+        if budget[0] < ntens:
+            sig.append("n")
+            return None
+        budget[0] -= ntens
+        sig.append("&%d" % j)
+        return ("__ref__", node)
+    b0 = budget[0]
     if k == 0:  # tensor slot
         if budget[0] <= 0:
             sig.append("n")
@@ -102,33 +129,55 @@ def gen_structure(cs, pool, budget, depth, sig, root=False, in_tuple=False):
     n = cs.randint(0, 3, "len")
     if k == 1:
         sig.append("[")
-        r = [gen_structure(cs, pool, budget, depth + 1, sig, in_tuple=in_tuple) for _ in range(n)]
+        r = [gen_structure(cs, pool, budget, depth + 1, sig, in_tuple=in_tuple, done=done) for _ in range(n)]
         sig.append("]")
+        if not in_tuple:
+            done.append((r, b0 - budget[0]))
         return r
     if k == 2:
         sig.append("{")
         r = {}
         for j in range(n):
             key = ["a", "b", 3, "k"][j] if cs.bool("keyorder") else ["z", 1, "b", "a"][j]
-            r[key] = gen_structure(cs, pool, budget, depth + 1, sig, in_tuple=in_tuple)
+            if key in r:
+                key = "k%d" % j
+            r[key] = gen_structure(cs, pool, budget, depth + 1, sig, in_tuple=in_tuple, done=done)
         sig.append("}")
+        if not in_tuple:
+            done.append((r, b0 - budget[0]))
         return r
-    if k == 3:
-        sig.append("<")
-        b = ("__bag__", [])
+    if k in (3, 7):
+        sig.append("<" if k == 3 else "<!")
+        b = ("__bag__" if k == 3 else "__frozenbag__", [])
         for j in range(n):
-            b[1].append((["x", "y", "w", "q"][j], gen_structure(cs, pool, budget, depth + 1, sig, in_tuple=in_tuple)))
+            b[1].append((["x", "y", "w", "q"][j], gen_structure(cs, pool, budget, depth + 1, sig, in_tuple=in_tuple,
+                                                              done=done)))
         sig.append(">")
+        if not in_tuple:
+            done.append((b, b0 - budget[0]))
         return b
     if k == 4:
         sig.append("(")
-        r = ("__tuple__", [gen_structure(cs, pool, budget, depth + 1, sig, in_tuple=True) for _ in range(n)])
+        r = ("__tuple__", [gen_structure(cs, pool, budget, depth + 1, sig, in_tuple=True, done=done) for _ in range(n)])
         sig.append(")")
         return r
 
 
-def realise(spec, pool):
-    """turn the spec into real python objects holding the pool's tensors"""
+def realise(spec, pool, memo=None):
+    """turn the spec into real python objects holding the pool's tensors (a spec node referenced twice
+    becomes one object referenced twice)"""
+    if memo is None:
+        memo = {}
+    if isinstance(spec, tuple) and spec and spec[0] == "__ref__":
+        return memo[id(spec[1])]
+    if isinstance(spec, (list, dict)) or (isinstance(spec, tuple) and spec and spec[0] in ("__bag__", "__frozenbag__")):
+        r = _realise(spec, pool, memo)
+        memo[id(spec)] = r
+        return r
+    return _realise(spec, pool, memo)
+
+
+def _realise(spec, pool, memo):
     if isinstance(spec, tuple) and spec and spec[0] == "__slot__":
         return pool[spec[1]]
     if isinstance(spec, tuple) and spec and spec[0] == "__leaf__":
@@ -141,17 +190,17 @@ def realise(spec, pool):
         else:
             m.register_buffer("p", t)
         return m
-    if isinstance(spec, tuple) and spec and spec[0] == "__bag__":
-        b = Bag()
+    if isinstance(spec, tuple) and spec and spec[0] in ("__bag__", "__frozenbag__"):
+        b = Bag() if spec[0] == "__bag__" else FrozenBag()
         for name, s in spec[1]:
-            setattr(b, name, realise(s, pool))
+            b.__dict__[name] = realise(s, pool, memo)
         return b
     if isinstance(spec, tuple) and spec and spec[0] == "__tuple__":
-        return tuple(realise(s, pool) for s in spec[1])
+        return tuple(realise(s, pool, memo) for s in spec[1])
     if isinstance(spec, list):
-        return [realise(s, pool) for s in spec]
+        return [realise(s, pool, memo) for s in spec]
     if isinstance(spec, dict):
-        return {k: realise(s, pool) for k, s in spec.items()}
+        return {k: realise(s, pool, memo) for k, s in spec.items()}
     return spec
 
 
@@ -175,6 +224,28 @@ def model_slots(obj, tuples=False):
         for e in obj.__dict__.values():
             res.extend(model_slots(e, tuples))
     return res
+
+
+def model_phys(obj, tuples=False, out=None):
+    """for every slot occurrence (same order as model_slots) the physical place it lives in:
+    (id of the container, key).  A container referenced twice yields the same places twice."""
+    if out is None:
+        out = []
+
+    def walk(o, place):
+        if isinstance(o, torch.Tensor):
+            out.append(place)
+        elif isinstance(o, list) or (tuples and isinstance(o, tuple)):
+            for i, e in enumerate(o):
+                walk(e, (id(o), i))
+        elif isinstance(o, dict):
+            for k, e in o.items():
+                walk(e, (id(o), repr(k)))
+        elif hasattr(o, "__dict__"):
+            for k, e in o.__dict__.items():
+                walk(e, (id(o), k))
+    walk(obj, ("root", 0))
+    return out
 
 
 def model_unique(slots):
@@ -229,6 +300,18 @@ class Mismatch(Exception):
 
 
 TUPLE_SLOTS = [False]     # set per run once the Packer has shown which reading of tuples it follows
+PAIR = {}                 # id(container in the reference twin) -> id(container in the result), per comparison
+RPAIR = {}
+
+
+def _pair(ref, res, path):
+    """a container referenced twice in the original is one container referenced twice in the result, and
+    two containers stay two"""
+    a, b = id(ref), id(res)
+    if PAIR.setdefault(a, b) != b:
+        raise Mismatch("sharing", "%s: a container that occurs twice in the original became two containers" % path)
+    if RPAIR.setdefault(b, a) != a:
+        raise Mismatch("sharing", "%s: two containers of the original became one container" % path)
 
 
 def compare_result(res, ref, expected, pos, foreign_ids, path="root"):
@@ -254,6 +337,7 @@ def compare_result(res, ref, expected, pos, foreign_ids, path="root"):
             raise Mismatch("shape", "%s: list expected with len %d, got %s" % (path, len(ref), _short(res)))
         if id(res) in foreign_ids:
             raise Mismatch("shared_container", "%s: list object is shared with %s" % (path, foreign_ids[id(res)]))
+        _pair(ref, res, path)
         for i, (a, b) in enumerate(zip(res, ref)):
             compare_result(a, b, expected, pos, foreign_ids, "%s[%d]" % (path, i))
         return
@@ -262,6 +346,7 @@ def compare_result(res, ref, expected, pos, foreign_ids, path="root"):
             raise Mismatch("shape", "%s: dict keys differ: %s" % (path, _short(res)))
         if id(res) in foreign_ids:
             raise Mismatch("shared_container", "%s: dict object is shared with %s" % (path, foreign_ids[id(res)]))
+        _pair(ref, res, path)
         for k in ref:
             compare_result(res[k], ref[k], expected, pos, foreign_ids, "%s[%r]" % (path, k))
         return
@@ -280,6 +365,7 @@ def compare_result(res, ref, expected, pos, foreign_ids, path="root"):
             raise Mismatch("shape", "%s: object attrs differ: %s" % (path, _short(res)))
         if id(res) in foreign_ids:
             raise Mismatch("shared_container", "%s: object is shared with %s" % (path, foreign_ids[id(res)]))
+        _pair(ref, res, path)
         for k in ref.__dict__:
             compare_result(res.__dict__[k], ref.__dict__[k], expected, pos, foreign_ids, "%s.%s" % (path, k))
         return
@@ -451,6 +537,8 @@ def run(cs, cfg):
     slots = model_slots(ref)
     uniq, inverse = model_unique(slots)
     nslots, nuniq = len(slots), len(uniq)
+    phys = model_phys(ref)
+    dag = len(set(phys)) != len(phys)
     slots_t = model_slots(ref, tuples=True)
     tuple_tensors = len(slots_t) != len(slots)
     TUPLE_SLOTS[0] = False
@@ -518,6 +606,7 @@ def run(cs, cfg):
                         # tuples are traversed: from now on everything is judged under that reading
                         TUPLE_SLOTS[0] = True
                         slots = slots_t
+                        phys = model_phys(ref, tuples=True)
                         uniq, inverse = model_unique(slots)
                         nslots, nuniq = len(slots), len(uniq)
                         zero = nslots == 0
@@ -555,6 +644,11 @@ def run(cs, cfg):
                 expected = None
                 if not flat:
                     new = [fresh(t.shape) for t in tgt]
+                    if not u and dag:
+                        # positions that are one physical place (a container referenced twice) get one tensor:
+                        # anything else has no single right answer
+                        first = {}
+                        new = [first.setdefault(p, x) for p, x in zip(phys, new)]
                     if bad == 1:
                         if cs.bool("longer") or len(new) == 0:
                             new = new + [fresh((2,))]
@@ -581,6 +675,16 @@ def run(cs, cfg):
                         a = fresh(tgt[0].shape)
                     else:
                         a = fresh((sum(t.numel() for t in tgt),))
+                        if not u and dag:
+                            first = {}
+                            off = 0
+                            for p, t in zip(phys, tgt):
+                                seg = a[off:off + t.numel()]
+                                if p in first:
+                                    seg.copy_(first[p])
+                                else:
+                                    first[p] = seg.clone()
+                                off += t.numel()
                     if bad != 0 and len(tgt) > 0:
                         a = fresh((a.numel() + 1 + cs.draw(2, "extra"),))
                         bad = 1
@@ -617,6 +721,8 @@ def run(cs, cfg):
                             must_succeed_ctor += 1
                         # a returned structure is never allowed to be wrong
                         pos = [0]
+                        PAIR.clear()
+                        RPAIR.clear()
                         compare_result(res, ref, expected, pos, foreign)
                         if pos[0] != len(expected):
                             raise Mismatch("slot_count", "result has %d tensor slots, model %d" % (pos[0], len(expected)))
@@ -681,6 +787,10 @@ def run(cs, cfg):
         cases.append("%s|%s|%s" % (decoded["structure"], inverse, ",".join(opseq)))
     if tuple_tensors:
         cnt("reach.tensors_inside_tuples")
+    if dag:
+        cnt("reach.container_referenced_twice")
+    if "<!" in decoded["structure"]:
+        cnt("reach.assignment_intercepting_object")
     TUPLE_SLOTS[0] = False
     return {"violations": viol, "stats": stats, "cases": cases, "decoded": decoded,
             "digest": SIM.digest(), "evals": 1, "events": len(decoded["ops"])}
